@@ -13,7 +13,8 @@ import Dashu.Model.NT.Log2
   (C12) for the precision estimate of `with_base`.
 
   The model mirrors the code after the `fix:` commits 53ed19b, 16f6798, 2156b61, 003ffef, bd48ef9,
-  cb83f34 (defects found by this check; see the `fixed:` lines of `known_findings.jsonl`).
+  cb83f34, a7e84fd, 5997fe0, 0c0f651, 38e3075 (defects found by this check; see the `fixed:` lines of
+  `known_findings.jsonl`).
 -/
 namespace Dashu.Model.Text
 open Dashu.Model.Float
@@ -495,13 +496,11 @@ def divRoundLong (NewB : Nat) (m : Mode) (p : Nat) (num den : FRepr) : Rounded F
     (FRepr.new NewB (hl.1 + rInt adj) exp, some adj)
 
 /-- `Context::<R>::convert_base::<B, NewB>(repr)` at precision `p` (finite input), as of commit
-    02e179b (every branch rounds to the target precision — the same-base shortcut as REQUIRED, see below) and bd48ef9 (a dividend longer than
+    02e179b (every branch rounds to the target precision), 0c0f651 (the same-base shortcut rounds too) and bd48ef9 (a dividend longer than
     `repr_div` supports is rounded once through `round_ratio`). -/
 def convertBase (W : Nat) (B NewB : Nat) (m : Mode) (p : Nat) (r : FRepr) : ConvResult :=
-  -- same base: what the property REQUIRES — the value rounded to the target precision like on every other
-  -- path (`repr_round`; nothing happens when the digits fit or the precision is unlimited).  The code at
-  -- fa3b7b8 returns the operand unrounded here (`with_base_and_precision::<B>(p)` with fewer digits than the
-  -- operand has): recorded finding, proposed_fixes/c08-convert-base-same-base.diff
+  -- same base (`if NewB == B`, as of fix 0c0f651): the value rounded to the target precision like on every other
+  -- path (`self.repr_round(repr)`; nothing happens when the digits fit or the precision is unlimited)
   if NewB = B then .ok (reprRound NewB m coarseNone p (FRepr.new NewB r.signif r.exp))
   else
     let up := if NewB > B then ilogExact NewB B else 0
@@ -545,9 +544,8 @@ def withBasePrecisionSpec (B NewB p : Nat) : Nat :=
 def withBasePrecision (_W : Nat) (B NewB p : Nat) : Nat :=
   let down := ilogExact B NewB
   let up := ilogExact NewB B
-  -- `precision * down` is a `usize`: a product beyond `usize::MAX` (64-bit) is REQUIRED to saturate — a precision
-  -- that large is as good as unlimited; the code at fa3b7b8 overflows (debug panic, release wrap-around to a tiny
-  -- precision): recorded finding, proposed_fixes/c08-with-base-precision-overflow.diff
+  -- `self.context.precision.saturating_mul(down)` (fix 38e3075): a product beyond `usize::MAX` (64-bit) saturates — a
+  -- precision that large is as good as unlimited
   if down > 1 then min (p * down) (2 ^ 64 - 1)
   else if up > 1 then p / up
   else withBasePrecisionSpec B NewB p
